@@ -103,3 +103,32 @@ fn k_derive_recursive_types() {
         core::mem::forget(cx);
     }
 }
+
+// ---- require_static at a field position of one variant where SIBLING variants hold a pointer at the same position ("require_static
+// fields at every position", "every field of the active variant"): the exemption belongs to that field of that variant only
+#[derive(crate::Collect)] #[collect(no_drop)]
+enum Aligned<'gc> { A { #[collect(require_static)] s: Opaque, p: G<'gc> }, B(G<'gc>, #[collect(require_static)] Opaque), C(G<'gc>, W<'gc>), D(#[collect(require_static)] Opaque) }
+#[derive(crate::Collect)] #[collect(no_drop)]
+enum StaticOrPtr<'gc> { S { #[collect(require_static)] s: Opaque }, P(G<'gc>) }
+#[derive(crate::Collect)] #[collect(no_drop)]
+enum StaticOrPlain { S(#[collect(require_static)] Opaque), N(u8) }
+#[kani::proof]
+#[kani::unwind(6)]
+fn k_derive_enum_static_positions() {
+    unsafe {
+        let cx = Context::new(); let mc = cx.mutation_context();
+        let g = [Gc::new(mc, 0u8), Gc::new(mc, 1u8)]; let p = [a(g[0]), a(g[1])];
+        let w = |i: usize| Gc::downgrade(g[i]);
+        match kani::any::<u8>() % 6 {
+            0 => { let mut r = Rec::new(); Aligned::A { s: Opaque(1), p: g[0] }.trace(&mut r); assert!(eq(&r, &[p[0]], &[]), "[trace] enum: field after a require_static field is traced"); }
+            1 => { let mut r = Rec::new(); Aligned::B(g[1], Opaque(1)).trace(&mut r); assert!(eq(&r, &[p[1]], &[]), "[trace] enum: position 0 is traced although a sibling variant has require_static at position 0"); }
+            2 => { let mut r = Rec::new(); Aligned::C(g[0], w(1)).trace(&mut r); assert!(eq(&r, &[p[0]], &[p[1]]), "[trace] enum: a variant without require_static is traced in full whatever its siblings exempt"); }
+            3 => { let mut r = Rec::new(); Aligned::D(Opaque(1)).trace(&mut r); assert!(eq(&r, &[], &[]), "[trace] enum: an all-static variant reports nothing"); }
+            4 => { let mut r = Rec::new(); StaticOrPtr::P(g[0]).trace(&mut r); assert!(eq(&r, &[p[0]], &[]), "[trace] two-variant enum: pointer at the position a sibling exempts"); }
+            _ => { let mut r = Rec::new(); StaticOrPtr::S { s: Opaque(1) }.trace(&mut r); assert!(eq(&r, &[], &[])); }
+        }
+        assert!(nt::<Aligned>() && nt::<StaticOrPtr>(), "[trace] NEEDS_TRACE counts every non-exempt field of every variant");
+        assert!(!nt::<StaticOrPlain>(), "[trace] NEEDS_TRACE is false when every field is exempt or plain");
+        core::mem::forget(cx);
+    }
+}
